@@ -17,7 +17,9 @@ TIERS = {
     'quick': {'budget': 60, 'watchdog': 400, 'shards': 1},
     'thorough': {'budget': 300, 'watchdog': 900, 'shards': 4},
 }
-TARGET_NAMES = {1: 'handlers[ns][event]', 2: "handlers[ns]['*']",
+TARGET_NAMES = {105: 'a similarly named method of class namespace[ns]',
+                106: "a similarly named method of class namespace['*']",
+                1: 'handlers[ns][event]', 2: "handlers[ns]['*']",
                 3: "handlers['*'][event]", 4: "handlers['*']['*']",
                 5: 'class namespace[ns]', 6: "class namespace['*']"}
 
@@ -90,6 +92,22 @@ def mk_class(base, rec, target, event, has_method, is_async, co, ns,
             def m(self_, *a):
                 return h(*a)
         body['on_' + event] = m
+    else:
+        # a class without on_<event> may well have methods for events with
+        # *similar* names (the identifier-like spelling, another case): they
+        # are not the event's method
+        import re
+        for near in {re.sub(r'[^0-9a-zA-Z_]', '_', event), event.lower(),
+                     event.upper(), event + '_'} - {event}:
+            h = D.wrap_handler(rec.fn(target + 100, legacy_arity), is_async,
+                               co)
+            if is_async and co:
+                async def m2(self_, *a, _h=h):
+                    return await _h(*a)
+            else:
+                def m2(self_, *a, _h=h):
+                    return _h(*a)
+            body['on_' + near] = m2
     return type('N%d' % target, (base,), body)(ns)
 
 
@@ -146,18 +164,30 @@ def server_case(ctx, kind, present, evkind, unrelated, has_method, co, rng,
         if legacy else {}
     ns = rng.choice(['/', '/a', '/chat'])
     # on the server "connect_error" is an ordinary event name
-    event = {'ordinary': rng.choice(['ev', 'my_event', 'x1',
-                                     'connect_error']),
+    event = {'ordinary': rng.choice(['ev', 'my_event', 'x1', 'my-event',
+                                     'my event', 'Ev', 'connect_error']),
              'connect': 'connect', 'disconnect': 'disconnect',
              # an event the client literally names "*": an ordinary event
              # name for which no specific handler can exist (that key is the
              # catch-all registration), so targets 1 and 3 are not available
-             'star': '*'}[evkind]
+             'star': '*', 'star_ns': 'ev'}[evkind]
     if evkind == 'star':
         present = set(present) - {1, 3}
         ctx.count('events_literally_named_star')
-    reserved = evkind not in ('ordinary', 'star')
-    d = D.make_drive(kind, async_handlers=False, namespaces='*')
+    serializer = 'default'
+    if evkind == 'star_ns':
+        # a namespace the client literally names "*" (only a serializer that
+        # does not require the leading slash can express it): an ordinary
+        # namespace for which no specific registration can exist - targets
+        # 1, 2 and 5 are not available, the catch-all ones get "*" prepended
+        ns = '*'
+        event = rng.choice(['ev', 'my_event'])
+        present = set(present) - {1, 2, 5}
+        serializer = 'msgpack'
+        ctx.count('namespaces_literally_named_star')
+    reserved = evkind not in ('ordinary', 'star', 'star_ns')
+    d = D.make_drive(kind, async_handlers=False, namespaces='*',
+                     serializer=serializer)
     rec = Rec()
     try:
         def reg(ev, target, nsp):
@@ -333,7 +363,8 @@ def client_case(ctx, kind, present, evkind, unrelated, has_method, co, rng,
     arity = {1: nbase - 1, 3: nbase, 5: nbase - 1, 6: nbase} \
         if legacy else {}
     ns = rng.choice(['/', '/a', '/chat'])
-    event = {'ordinary': rng.choice(['ev', 'my_event', 'x1']),
+    event = {'ordinary': rng.choice(['ev', 'my_event', 'x1', 'my-event',
+                                     'my event', 'Ev']),
              'connect': 'connect', 'disconnect': 'disconnect',
              'connect_error': 'connect_error'}[evkind]
     reserved = evkind != 'ordinary'
@@ -466,7 +497,7 @@ def run(ctx):
     for side, kinds in (('server', ('sync', 'async')),
                         ('client', ('sync', 'async'))):
         evkinds = ['ordinary', 'connect', 'disconnect'] + (
-            ['star'] if side == 'server' else []) + (
+            ['star', 'star_ns'] if side == 'server' else []) + (
             ['connect_error'] if side == 'client' else [])
         for kind in kinds:
             for co in ((True, False) if kind == 'async' else (False,)):
